@@ -13,25 +13,26 @@ import (
 // exiting, crashing, deadlocking or being killed.
 
 type IncOpts struct {
-	KillAt    int // <0: never
-	ClockGran int64
-	Race      bool
-	Trace     bool
-	PipeCap   int
-	Strategy  simrt.Strategy
-	StepCap   int
-	Snapshots bool // clone the fs after every journal entry (crash-state enumeration)
+	KillAt     int // <0: never
+	DiskFullAt int // >0: the n-th Go-level write below a task temp dir is short and fails with ENOSPC
+	ClockGran  int64
+	Race       bool
+	Trace      bool
+	PipeCap    int
+	Strategy   simrt.Strategy
+	StepCap    int
+	Snapshots  bool // clone the fs after every journal entry (crash-state enumeration)
 	// SnapOne != 0: keep ONE crash state, chosen uniformly among all journal
 	// entries by reservoir sampling from a private PRNG seeded with this value
 	// (one tape draw decides; memory stays linear for long runs)
-	SnapOne uint64
-	Fault     *FaultSpec
-	Fault2    *FaultSpec // a second, independent failure in the same run
-	NoDur     bool
-	MinDur    int64 // lower bound for command durations (coarse-clock runs)
-	TZOffset  int   // local time zone of this incarnation (seconds east of UTC)
-	GapNS     int64 // wall-clock time between the end of this incarnation and the next (default 1h)
-	OnStep    func(inc *Inc)
+	SnapOne  uint64
+	Fault    *FaultSpec
+	Fault2   *FaultSpec // a second, independent failure in the same run
+	NoDur    bool
+	MinDur   int64 // lower bound for command durations (coarse-clock runs)
+	TZOffset int   // local time zone of this incarnation (seconds east of UTC)
+	GapNS    int64 // wall-clock time between the end of this incarnation and the next (default 1h)
+	OnStep   func(inc *Inc)
 }
 
 type FaultSpec struct {
@@ -85,7 +86,7 @@ func InitFS(s *simrt.Sim, w *WF) {
 }
 
 func RunInc(w *WF, t *simrt.Tape, root *simrt.Inode, nextIno int, o IncOpts) *Inc {
-	cfg := simrt.Config{Strategy: o.Strategy, KillAt: o.KillAt, ClockGran: o.ClockGran, TraceOn: o.Trace, Race: o.Race,
+	cfg := simrt.Config{Strategy: o.Strategy, KillAt: o.KillAt, DiskFullAt: o.DiskFullAt, ClockGran: o.ClockGran, TraceOn: o.Trace, Race: o.Race,
 		PipeCap: o.PipeCap, TimerPick: 0.03, StepCap: o.StepCap, Env: map[string]string{}}
 	if w.Bufsize > 0 {
 		cfg.Env["SCIPIPE_BUFSIZE"] = fmt.Sprint(w.Bufsize)
